@@ -275,6 +275,20 @@ fn check_program(base: &Xstate, src: &str, with_input: bool, stack_limit: Option
                 Ok(Ok(())) => {}
             }
             let pd = project(&y.verif_dump_light(), &DROP);
+            if path.ends_with(")B") && n >= 1 {
+                // right after the first step back: a source rejected by the compiler leaves the suspended
+                // program where it is (the failure was stepped back over: nothing is to be abandoned)
+                let mut z = y.clone();
+                const DROP_R: [&str; 5] = ["meter", "stdout", "code", "running", "sources_len"];
+                let before = project(&z.verif_dump_light(), &DROP_R);
+                if let Ok(Err(_)) = guarded(|| z.compile("1 no-such-word-c02 2")) {
+                    let after = project(&z.verif_dump_light(), &DROP_R);
+                    if after != before {
+                        let d = after.lines().zip(before.lines()).find(|(a, b)| a != b).map(|(a, b)| format!("after: `{}`, before: `{}`", truncate(a, 200), truncate(b, 200))).unwrap_or_default();
+                        return Err(("rejected-source-changes-history:after-failed-step".into(), format!("{}R", path), format!("a rejected compile after stepping back over the failed step: {}", d)));
+                    }
+                }
+            }
             match (0..pos.min(n + 1)).rev().find(|i| trace[*i] == pd) {
                 Some(i) => pos = i,
                 None => {
